@@ -150,7 +150,7 @@ def ty_signed(t):
 
 
 class Interp:
-    def __init__(self, prog, max_leaves=3000, max_steps=1000000, total_steps=1500000):
+    def __init__(self, prog, max_leaves=1200, max_steps=700000, total_steps=1000000):
         self.prog = prog
         self.max_leaves = max_leaves
         self.max_steps = max_steps
@@ -193,7 +193,8 @@ class Interp:
                     return ('symenum', ty['id'], mk_lin(w, 0, {leaf: 1}))
                 v = opts.get(name)
                 if v is None:
-                    raise Unsupported('symbolic enum with fields needs a variant choice: %s' % (name,))
+                    # the variant is chosen (by forking) when the value is first inspected
+                    return ('lazy', ty, name)
                 variant = adt['variants'][v]
                 vals = tuple(self.build_sym(st, f['ty'], name + (f['name'],), opts=opts) for f in variant['fields'])
                 return ('adt', ty['id'], v, vals)
@@ -214,6 +215,20 @@ class Interp:
         raise Unsupported('cannot build symbolic %s for %s' % (k, name))
 
     # ------------------------------------------------------------------ memory
+    def materialise(self, st, lz):
+        """Choose the variant of a lazily symbolic enum (forks once per variant), build its symbolic payload."""
+        _, ty, name = lz
+        adt = self.prog.adt(ty)
+        dom = tuple(sorted(int(v['discr']) for v in adt['variants']))
+        w = adt['discr_ty']['bits'] if adt.get('discr_ty') else 64
+        leaf = ('in', name + ('#variant',), w, dom)
+        d = mk_lin(w, 0, {leaf: 1})
+        for vi, v in enumerate(adt['variants']):
+            if self.need(st, mk_cmp('Eq', d, K(w, int(v['discr'])))):
+                vals = tuple(self.build_sym(st, f['ty'], name + (v['name'], f['name'])) for f in v['fields'])
+                return ('adt', ty['id'], vi, vals)
+        raise Infeasible()
+
     def read(self, st, target):
         root, proj = target
         if root[0] == 'local':
@@ -224,6 +239,8 @@ class Interp:
 
     def _walk(self, st, v, proj, target):
         for i, p in enumerate(proj):
+            if v[0] == 'lazy':
+                v = self.materialise(st, v)
             kind = v[0]
             if p[0] == 'f':
                 if kind == 'adt':
@@ -710,6 +727,8 @@ class Interp:
         if k == 'discriminant':
             v = self.read_place(st, fr, r['place'])
             w = ty_bits(r['ty'])
+            if v[0] == 'lazy':
+                v = self.materialise(st, v)
             if v[0] == 'adt':
                 adt = self.prog.adts[v[1]]
                 return K(w, int(adt['variants'][v[2]]['discr']))
@@ -985,6 +1004,40 @@ class Interp:
                 return True, ('adt', ret_ty['id'], 0, ())
             self.write(st, ref[1], newit)
             return True, ('adt', ret_ty['id'], 1, (item,))
+        if re.match(r"^<core::slice::Iter(Mut)?<'a, T> as core::iter::DoubleEndedIterator>::next_back$", P):
+            ref = args[0]
+            it = self.read(st, ref[1])
+            if it[0] != 'model' or it[1] != 'iter':
+                raise Unsupported('next_back on %s' % (it[0],))
+            ret_ty = self.prog.instances[callee['key']]['sig']['output']
+            sl, pos = it[2], it[3]
+            ln = self.slice_len(sl)
+            cond = mk_cmp('Lt', pos, ln)
+            if not is_const(cond):
+                c0, t0 = lin_of(ln)
+                lo, hi = st.know.interval(c0, t0)
+                if hi - lo > 64:
+                    raise Unsupported('reverse loop over a slice whose symbolic length is not bounded')
+                for v in range(lo, hi + 1):
+                    if self.need(st, mk_cmp('Eq', ln, K(USIZE, v))):
+                        break
+                cond = mk_cmp('Lt', pos, self.conc(st, ln))
+            if self.need(st, cond):
+                last = self.conc(st, self.sub(sl[3], K(USIZE, 1)))
+                eref = ('ref', (sl[1][0], sl[1][1] + (('i', last),)))
+                self.write(st, ref[1], ('model', 'iter', ('slice', sl[1], sl[2], last), pos))
+                return True, ('adt', ret_ty['id'], 1, (eref,))
+            return True, ('adt', ret_ty['id'], 0, ())
+        m = re.match(r"^<core::slice::Iter(?:Mut)?<'a, T> as core::iter::(?:Iterator|ExactSizeIterator)>::(size_hint|len|count)$", P)
+        if m:
+            it = args[0] if args[0][0] == 'model' else self.read(st, args[0][1])
+            if it[0] != 'model' or it[1] != 'iter':
+                raise Unsupported('%s on %s' % (m.group(1), it[0]))
+            rem = self.sub(self.slice_len(it[2]), it[3])
+            if m.group(1) == 'size_hint':
+                ret_ty = self.prog.instances[callee['key']]['sig']['output']
+                return True, ('tuple', (rem, ('adt', ret_ty['elems'][1]['id'], 1, (rem,))))
+            return True, rem
         if P == 'core::iter::Iterator::zip':
             a, b = args
             return True, ('model', 'zip', self.as_iter(st, a, None), self.as_iter(st, b, callee))
